@@ -431,25 +431,29 @@ func baseSpecs(thorough bool) []spec {
 
 // ---------------------------------------------------------------- variants
 
-var litAlphabet = []string{"0", "1", "-1", "1.5", "1e3", "123456789", "'x'", "''", "'a''b'", `'a\'b'`, `"q"`,
+var litAlphabet = []string{"0", "1", "-1", "1.5", "1e3", "123456789", "'x'", "''", "'a''b'", "''''", `"a""b"`, `'a\'b'`, `"q"`,
 	"'a b'", "'a,b'", "'(x)'", "'x) or (1=1'", "'-- c'", "'/*c*/'", "'?'", "0x1f"}
 var intAlphabet = []string{"0", "1", "100"}
 
 func litClass(l string) string {
-	switch {
-	case strings.Contains(l, "''") && len(l) > 2:
-		return "string_doubled_quote"
-	case strings.Contains(l, `\'`):
-		return "string_backslash_quote"
-	case strings.HasPrefix(l, `"`):
-		return "string_double_quoted"
-	case l == "''":
-		return "string_empty"
-	case strings.HasPrefix(l, "'"):
-		if strings.ContainsAny(l, " ,()-/*?") {
+	if len(l) >= 2 && (l[0] == '\'' || l[0] == '"') {
+		inner := l[1 : len(l)-1]
+		q := string(l[0])
+		switch {
+		case strings.Contains(inner, q+q):
+			return "string_doubled_quote"
+		case strings.Contains(inner, `\`+q):
+			return "string_backslash_quote"
+		case l[0] == '"':
+			return "string_double_quoted"
+		case inner == "":
+			return "string_empty"
+		case strings.ContainsAny(inner, " ,()-/*?="):
 			return "string_with_punct"
 		}
 		return "string"
+	}
+	switch {
 	case strings.HasPrefix(l, "0x"):
 		return "hex"
 	case strings.HasPrefix(l, "-"):
@@ -479,6 +483,7 @@ type variant struct {
 	Site  string
 	What  string
 	Next  string // kind of the token after the changed gap / of the changed token
+	Ctx   string // "list": the changed gap belongs to an IN / VALUES list construct, else "plain"
 	Class string // equivalent | structural
 	// render deltas relative to the base token list (nil for variants that rebuild the list)
 	gaps map[int]string
@@ -498,6 +503,31 @@ func tokDesc(t tok) string {
 		return "lit"
 	}
 	return kindName[t.K]
+}
+
+// listCtx marks, for every gap index i (gap before token i), whether it lies between an
+// IN / VALUES keyword and the closing parenthesis of its (last) list.
+func listCtx(toks []tok) []bool {
+	out := make([]bool, len(toks)+1)
+	for i := 0; i < len(toks); i++ {
+		if toks[i].K == KW && (toks[i].T == "in" || toks[i].T == "values") {
+			depth, end := 0, i
+			for j := i + 1; j < len(toks); j++ {
+				if toks[j].K == LP {
+					depth++
+				} else if toks[j].K == RP {
+					depth--
+					end = j
+				} else if depth == 0 && toks[j].K != COMMA {
+					break
+				}
+			}
+			for k := i + 1; k <= end; k++ {
+				out[k] = true
+			}
+		}
+	}
+	return out
 }
 
 func applyLits(toks []tok, lits map[int]string) []tok {
@@ -530,8 +560,17 @@ func contextOfLit(toks []tok, i int) string {
 func equivalents(s spec) []variant {
 	toks := build(s)
 	var out []variant
+	inList := listCtx(toks)
 	add := func(gaps map[int]string, kw map[int]int, lits map[int]string, knob, site, what, next string) {
-		out = append(out, variant{SQL: render(applyLits(toks, lits), gaps, kw), Knob: knob, Site: site, What: what, Next: next,
+		ctx := "plain"
+		if len(gaps) == 1 {
+			for i := range gaps {
+				if inList[i] {
+					ctx = "list"
+				}
+			}
+		}
+		out = append(out, variant{SQL: render(applyLits(toks, lits), gaps, kw), Knob: knob, Site: site, What: what, Next: next, Ctx: ctx,
 			Class: "equivalent", gaps: gaps, kw: kw, lits: lits, pure: true})
 	}
 	addSQL := func(sql, knob, site, what string) {
@@ -851,6 +890,7 @@ type kase struct {
 	Site    string `json:"site"`
 	What    string `json:"what"`
 	Next    string `json:"next"`
+	Ctx     string `json:"ctx"`
 	Kind    string `json:"kind"`
 }
 
@@ -880,7 +920,7 @@ func judge(r *ev.Run, g *rig, k kase) bool {
 	}
 	if os.Getenv("C36_DUMP") != "" {
 		dumpMu.Lock()
-		key := k.Class + " | " + k.Knob + " | " + k.Site + " | " + k.What + " | next=" + k.Next
+		key := k.Class + " | " + k.Knob + " | " + k.Site + " | " + k.What + " | next=" + k.Next + " | ctx=" + k.Ctx
 		dump[key]++
 		if _, ok := dumpEx[key]; !ok {
 			dumpEx[key] = fmt.Sprintf("%q -> %q   [%s] vs [%s]", k.Base, k.Variant, mysql.GetFingerprint(k.Base), mysql.GetFingerprint(k.Variant))
@@ -890,7 +930,7 @@ func judge(r *ev.Run, g *rig, k kase) bool {
 	r.Violation(ev.Witness{
 		Summary: fmt.Sprintf("blacklisted %q: %s variant (%s %s %s) %q %s; fingerprints %q vs %q",
 			k.Base, k.Class, k.Knob, k.Site, k.What, k.Variant, verb, mysql.GetFingerprint(k.Base), mysql.GetFingerprint(k.Variant)),
-		Features: map[string]string{"class": k.Class, "knob": k.Knob, "site": k.Site, "what": k.What, "next": k.Next, "stmt": k.Kind},
+		Features: map[string]string{"class": k.Class, "knob": k.Knob, "site": k.Site, "what": k.What, "next": k.Next, "ctx": k.Ctx, "stmt": k.Kind},
 		Case:     k,
 	})
 	return false
@@ -948,7 +988,7 @@ func main() {
 				ev.Fatalf("namespace without blacklist rejects %q", v.SQL)
 			}
 			n++
-			kk := kase{Base: base, Variant: v.SQL, Class: v.Class, Knob: v.Knob, Site: v.Site, What: v.What, Next: v.Next, Kind: s.Kind}
+			kk := kase{Base: base, Variant: v.SQL, Class: v.Class, Knob: v.Knob, Site: v.Site, What: v.What, Next: v.Next, Ctx: v.Ctx, Kind: s.Kind}
 			if judge(r, g, kk) {
 				r.Distinct("nontrivial", "rej|"+base+"|"+v.SQL)
 				r.Distinct("knobs_rejected", v.Knob)
@@ -961,7 +1001,7 @@ func main() {
 		for _, v := range structurals(s, toks) {
 			mustParse(p, v.SQL, v.Knob+"/"+v.Site+"/"+v.What)
 			n++
-			kk := kase{Base: base, Variant: v.SQL, Class: v.Class, Knob: v.Knob, Site: v.Site, What: v.What, Next: v.Next, Kind: s.Kind}
+			kk := kase{Base: base, Variant: v.SQL, Class: v.Class, Knob: v.Knob, Site: v.Site, What: v.What, Next: v.Next, Ctx: v.Ctx, Kind: s.Kind}
 			if judge(r, g, kk) {
 				r.Distinct("nontrivial", "alw|"+base+"|"+v.SQL)
 				r.Distinct("mutants_allowed", v.Knob)
